@@ -1055,7 +1055,8 @@ impl World {
                 let pr = self.conns[inc as usize].conn.verif_probe();
                 let names = ["LossDetection", "Idle", "Close", "KeyDiscard", "PathValidation", "KeepAlive", "Pacing", "PushNewCid", "MaxAckDelay"];
                 let first = pr.timers.iter().enumerate().filter_map(|(i, t)| t.map(|t| (t, names[i]))).min().map(|x| x.1).unwrap_or("-");
-                self.logf(|| format!("inc{} timer({}) -> {:?} [in_flight={}B/{}ae window={} probes={:?} pto_count={} validated={}]", inc, first, to.map(crate::world::fmt_t), pr.in_flight_bytes, pr.in_flight_ack_eliciting, pr.window, pr.loss_probes, pr.pto_count, pr.path_validated));
+                let all: Vec<String> = pr.timers.iter().enumerate().filter_map(|(i, t)| t.map(|t| format!("{}={}", names[i], crate::world::fmt_t(self.to_ns(t))))).collect();
+                self.logf(|| format!("inc{} timer({}) -> {:?} [in_flight={}B/{}ae window={} probes={:?} pto_count={} validated={} pto={:?} armed: {}]", inc, first, to.map(crate::world::fmt_t), pr.in_flight_bytes, pr.in_flight_ack_eliciting, pr.window, pr.loss_probes, pr.pto_count, pr.path_validated, pr.pto, all.join(" ")));
             }
             if let Some(at) = to {
                 let mut at = at.max(self.now);
